@@ -752,11 +752,7 @@ func runC12(c *lib.Ctx) error {
 		return err
 	}
 	// generated assets: segment boundaries off the whole second and off the millisecond grid
-	gen := []lib.GenAsset{
-		{Name: "g12_half", Reps: []lib.GenRep{lib.VideoRep("V1", 15360, 256, lib.UniformDurs(5, 30*256))}},                    // 0.5 s segments
-		{Name: "g12_ntsc48", Reps: []lib.GenRep{lib.VideoRep("V1", 30000, 1001, lib.UniformDurs(5, 48*1001))}},                // 1.6016 s: off the ms grid
-		{Name: "g12_irr", Reps: []lib.GenRep{lib.VideoRep("V1", 12800, 512, lib.FrameDurs(512, 50, 25, 75, 48, 52, 10, 40))}}, // irregular 0.4 .. 3 s
-	}
+	gen := genAssets()
 	gassets, gls, cleanup, err := lib.GenSetup("c12", gen)
 	if err != nil {
 		return fmt.Errorf("generated assets: %w", err)
@@ -779,6 +775,15 @@ func runC12(c *lib.Ctx) error {
 	}
 	sort.Strings(c.Res.Notes)
 	return nil
+}
+
+// genAssets: generated assets with segment boundaries off the whole second and off the millisecond grid.
+func genAssets() []lib.GenAsset {
+	return []lib.GenAsset{
+		{Name: "g12_half", Reps: []lib.GenRep{lib.VideoRep("V1", 15360, 256, lib.UniformDurs(5, 30*256))}},                    // 0.5 s segments
+		{Name: "g12_ntsc48", Reps: []lib.GenRep{lib.VideoRep("V1", 30000, 1001, lib.UniformDurs(5, 48*1001))}},                // 1.6016 s: off the ms grid
+		{Name: "g12_irr", Reps: []lib.GenRep{lib.VideoRep("V1", 12800, 512, lib.FrameDurs(512, 50, 25, 75, 48, 52, 10, 40))}}, // irregular 0.4 .. 3 s
+	}
 }
 
 func gcd(a, b int64) int64 {
@@ -1128,22 +1133,33 @@ func replayC12(c *lib.Ctx) error {
 		var ls *lib.Livesim
 		var a *lib.TLAsset
 		if in.Gen {
-			return fmt.Errorf("replay of a generated asset: re-run the check (asset %s is synthesised by the harness)", in.Asset)
-		}
-		bundled, err := lib.LoadBundledAssets(lib.TestVodRoot)
-		if err != nil {
-			return err
-		}
-		for _, b := range bundled {
-			if b.Path == in.Asset {
-				a = b
+			gassets, gls, cleanup, err := lib.GenSetup("c12replay", genAssets())
+			if err != nil {
+				return err
+			}
+			defer cleanup()
+			ls = gls
+			for _, b := range gassets {
+				if b.Path == in.Asset {
+					a = b
+				}
+			}
+		} else {
+			bundled, err := lib.LoadBundledAssets(lib.TestVodRoot)
+			if err != nil {
+				return err
+			}
+			for _, b := range bundled {
+				if b.Path == in.Asset {
+					a = b
+				}
+			}
+			if ls, err = lib.NewLivesim(lib.TestVodRoot, nil); err != nil {
+				return err
 			}
 		}
 		if a == nil {
 			return fmt.Errorf("asset %s not found", in.Asset)
-		}
-		if ls, err = lib.NewLivesim(lib.TestVodRoot, nil); err != nil {
-			return err
 		}
 		ref := a.Ref()
 		ro := lib.ObserveSeg(ls.GetRaw(in.RefURL), ref)
